@@ -171,6 +171,37 @@ def cext_triggers(b: bytes):
     return out
 
 
+# ---- Lean side ---------------------------------------------------------------------------------------------------------------
+_MODEL = {"probed": False, "on": False}
+
+
+def model_available(ctx):
+    if not _MODEL["probed"]:
+        _MODEL["probed"] = True
+        try:
+            _MODEL["on"] = ctx.have_driver() and ctx.driver().call({"op": "codec.ping"})[0] == "ok"
+        except core.Infra:
+            _MODEL["on"] = False
+    return _MODEL["on"]
+
+
+def model_hook(ctx, cls, spec_tx, wire, enc, result):
+    """Correspondence with the Lean model for one wire case.  No-op unless the driver answers `codec.ping`.
+
+    cls     : "supported" | "corpus" | ... (class of the case)
+    spec_tx : spec-level transaction (ref/conway.py content model; JSON image conway.to_json(spec_tx))
+    wire    : conway.WireChoices (JSON image wire.to_json())
+    enc     : conway.Encoded: .bytes (the transaction as received), .body = (start, end) offsets of the body
+    result  : what the implementation did under the pure back end: {"r": "ok" | "body" | "exc", "stage", "exc", "body": hex of the
+              re-encoded body when it differs, "id_ok": bool, "tx_same": bool | None}"""
+    if not model_available(ctx):
+        return
+    # The Lean side plugs in here: `spec.enc` (spec + wire -> bytes, body offsets) must equal enc; `codec.dec` with the
+    # `pure` / `cext` decoder variant on enc.bytes must reproduce `result` (re-encoded body hex or the error class);
+    # `ctx.traces += 1` per comparison, `ctx.diff(op, case_json(cls, spec_tx, wire), model, impl)` on disagreement.
+    return
+
+
 # ---- evaluation --------------------------------------------------------------------------------------------------------------
 def encode_case(tx, wire):
     try:
@@ -220,7 +251,11 @@ def judge_pure(ctx, cls, tx, wire, e, res):
         for t in present:
             btx, bw = t[3](btx, bw)
         be = encode_case(btx, bw)
-        if passed(W.evaluate(be.bytes, *be.body)):
+        bres = W.evaluate(be.bytes, *be.body)
+        if not passed(bres):
+            # not explained by the recorded defects: the neutralised case (no recorded trait left) is the counterexample
+            return judge_pure(ctx, cls + "/recorded-traits-neutralised", btx, bw, be, bres)
+        if True:
             hit = []
             for t in present:
                 vtx, vw = tx, wire
@@ -408,6 +443,7 @@ def check_supported(ctx, cls, tx, wire, collect=None):
     e = encode_case(tx, wire)
     res = W.evaluate(e.bytes, *e.body)
     verdict = judge_pure(ctx, cls, tx, wire, e, res)
+    model_hook(ctx, cls, tx, wire, e, res)
     ctx.count("supported:" + verdict)
     ctx.count("tx_same:" + str(res.get("tx_same")))
     for f in C.features(tx, wire):
@@ -450,14 +486,7 @@ def examine_fixture(ctx, f, line, hx):
 
 # ---- corpus -------------------------------------------------------------------------------------------------------------------
 def corpus():
-    from checks.c02 import corpus as c02_corpus
     out = []
-    for c in c02_corpus()[:8]:
-        tx = C.from_json(c["spec"])
-        for tag in (True, False):
-            w = C.WireChoices.from_json(c["wire"])
-            w.sets = {s: tag for s in C.SET_SITES}
-            out.append(("corpus", tx, w))
     h32 = bytes(range(32))
     addr = b"\x61" + bytes(28)
     base = {"inputs": [{"txid": h32, "ix": 2}, {"txid": h32, "ix": 1}, {"txid": bytes(32), "ix": 3}], "fee": 0}
@@ -470,6 +499,13 @@ def corpus():
             o = outs if form == "map" else outs[:2]
             out.append(("corpus", {"body": {**base, "outputs": o}, "wits": {}, "valid": True, "aux": None},
                         C.WireChoices(default_tag=tag, default_output=form)))
+    from checks.c02 import corpus as c02_corpus
+    for c in c02_corpus()[:8]:
+        tx = C.from_json(c["spec"])
+        for tag in (True, False):
+            w = C.WireChoices.from_json(c["wire"])
+            w.sets = {s: tag for s in C.SET_SITES}
+            out.append(("corpus", tx, w))
     return out
 
 
